@@ -46,9 +46,9 @@ func (c02) Thresholds(tier string) map[string]int64 {
 		"context:command":           1000,
 		"table-rows":                800,
 		"expressions-evaluated-twice-by-one-runner": 8000,
-		"special-operand:nan":       50,
-		"special-operand:inf":       50,
-		"special-operand:-0":        20,
+		"special-operand:nan":                       50,
+		"special-operand:inf":                       50,
+		"special-operand:-0":                        20,
 	}
 	// the complete operator x type-pair matrix must have been hit
 	for _, op := range hast.BinOps {
